@@ -90,6 +90,30 @@ fn generate_castles(_m: &mut MoveList, _g: &Game, all: Bitboard) {
     log(CASTLES, [u(all), 0, 0, 0, 0, 0, 0]);
 }
 
+// ---- callee contracts for the two position analyses (their own contracts: C01.attackers.exact, C01.pins.exact) ----
+pub static mut ATTQ: Option<(usize, Player, u8)> = None; // (address of the board asked about, colour, square)
+pub static mut ATTQ_CALLS: u8 = 0;
+pub static mut ATT_ANSWER: u64 = 0;
+pub static mut PINQ: Option<(usize, Player, u8)> = None;
+pub static mut PINQ_CALLS: u8 = 0;
+pub static mut PIN_ANSWER: (u64, u64) = (0, 0);
+pub fn attackers_contract(board: &crate::chess::board::Board, player: Player, square: Square) -> Bitboard {
+    unsafe {
+        ATTQ = Some((board as *const _ as usize, player, square.idx()));
+        ATTQ_CALLS += 1;
+        ATT_ANSWER = kani::any();
+        Bitboard::new(ATT_ANSWER)
+    }
+}
+pub fn pins_contract(board: &crate::chess::board::Board, player: Player, king: Square) -> (Bitboard, Bitboard) {
+    unsafe {
+        PINQ = Some((board as *const _ as usize, player, king.idx()));
+        PINQ_CALLS += 1;
+        PIN_ANSWER = (kani::any(), kani::any());
+        (Bitboard::new(PIN_ANSWER.0), Bitboard::new(PIN_ANSWER.1))
+    }
+}
+
 //@@ body: chess/movegen/gen.rs :: fn generate_captures => generate_captures__body
 //@@ body: chess/movegen/gen.rs :: fn generate_quiets => generate_quiets__body
 
@@ -120,10 +144,12 @@ fn one_king_game() -> (sym::Mailbox, Game, u8) {
 //@ functions: chess/movegen/gen.rs::generate_captures
 //@ timeout: 2400
 //@ mem_gb: 8
-//@ note: fully symbolic board (one king of the mover): checkers = enemy attackers of our king (cached); with two or more checkers ONLY the king generator runs; otherwise the check mask is the squares between the single checker and the king plus the checker (all squares when not in check), the pin masks are get_pins of our king, all three are cached, and the five capture generators are called exactly once each, in order, with (our pieces of the right kind, our king, the enemy pieces, all pieces, check mask, pin masks)
+//@ note: fully symbolic board (one king of the mover), the two position analyses replaced by their contracts (arbitrary answers, arguments recorded): checkers = the answer to 'who attacks OUR KING on THIS board' (cached); with two or more checkers ONLY the king generator runs; otherwise the check mask is the squares between the single checker and the king plus the checker (all squares when not in check), the pin masks are get_pins of our king, all three are cached, and the five capture generators are called exactly once each, in order, with (our pieces of the right kind, our king, the enemy pieces, all pieces, check mask, pin masks)
 //@ assumes: callee contracts C01.gen.*, C01.attackers.exact, C01.pins.exact; table lookups == geometry (C07)
 #[kani::proof]
 #[kani::unwind(10)]
+#[kani::stub(crate::chess::movegen::attackers::generate_attackers_of, attackers_contract)]
+#[kani::stub(crate::chess::movegen::pins::get_pins, pins_contract)]
 //@@stubs-tables
 fn vk_c01_orchestrate_captures() {
     let (mb, game, king) = one_king_game();
@@ -131,10 +157,19 @@ fn vk_c01_orchestrate_captures() {
     let b = &game.board;
     let mut list = MoveList::new();
     let mut cache = MovegenCache::new();
-    unsafe { LOG_LEN = 0; }
+    unsafe {
+        LOG_LEN = 0;
+        ATTQ_CALLS = 0;
+        PINQ_CALLS = 0;
+    }
     generate_captures__body(&game, &mut list, &mut cache);
-    let ksq = Square::from_index(king);
-    let checkers = attackers::generate_attackers_of(b, player, ksq);
+    let baddr = b as *const _ as usize;
+    // checkers = the answer to "who attacks OUR KING'S square on THIS board"
+    unsafe {
+        assert!(ATTQ_CALLS == 1 && ATTQ == Some((baddr, player, king)));
+    }
+    let checkers = Bitboard::new(unsafe { ATT_ANSWER });
+    // an attacker set is a set of enemy pieces (C01.attackers.exact)
     let (their, all) = (u(b.occupancy_for(them)), u(b.occupancy()));
     assert!(cache.checkers == checkers);
     kani::cover!(checkers.count() == 2);
@@ -142,7 +177,7 @@ fn vk_c01_orchestrate_captures() {
     kani::cover!(checkers.count() == 0);
     if checkers.count() > 1 {
         expect(0, KING_C, [king as u64, their, 0, 0, 0, 0, 0]);
-        assert!(unsafe { LOG_LEN } == 1);
+        assert!(unsafe { LOG_LEN } == 1 && unsafe { PINQ_CALLS } == 0);
     } else {
         let cm = if checkers.count() == 1 {
             let c = checkers.as_u64().trailing_zeros() as u8;
@@ -150,9 +185,11 @@ fn vk_c01_orchestrate_captures() {
         } else {
             u64::MAX
         };
-        let (op, dp) = pins::get_pins(b, player, ksq);
-        assert!(u(cache.check_mask) == cm && cache.orthogonal_pins == op && cache.diagonal_pins == dp);
-        let (op, dp) = (u(op), u(dp));
+        unsafe {
+            assert!(PINQ_CALLS == 1 && PINQ == Some((baddr, player, king)));
+        }
+        let (op, dp) = unsafe { PIN_ANSWER };
+        assert!(u(cache.check_mask) == cm && u(cache.orthogonal_pins) == op && u(cache.diagonal_pins) == dp);
         expect(0, PAWN_C, [u(b.pawns(player)), king as u64, their, all, cm, op, dp]);
         expect(1, KNIGHT_C, [u(b.knights(player)), their, cm, op, dp, 0, 0]);
         expect(2, DIAG_C, [u(b.diagonal_sliders(player)), their, all, cm, op, dp, 0]);
@@ -237,6 +274,8 @@ fn vk_c01_orchestrate_legal() {
 //@ mem_gb: 8
 #[kani::proof]
 #[kani::unwind(10)]
+#[kani::stub(crate::chess::movegen::attackers::generate_attackers_of, attackers_contract)]
+#[kani::stub(crate::chess::movegen::pins::get_pins, pins_contract)]
 //@@stubs-tables
 fn vk_c01_canary_orchestrate() {
     let (mb, game, king) = one_king_game();
